@@ -631,6 +631,10 @@ func getWSHostPort(si *network.ServerIdentity, global bool) (string, error) {
 		if err != nil {
 			return "", fmt.Errorf("unable to parse port of Address as int: %v", err)
 		}
+		if portRaw+1 >= 1<<portBitSize {
+			// port+1 does not fit a port number: do not wrap around to 0.
+			return "", fmt.Errorf("port of Address is too high to derive the websocket port: %d", portRaw)
+		}
 		port = uint16(portRaw + 1)
 		hostname = si.Address.Host()
 	}
